@@ -538,6 +538,11 @@ def replay_om(ctx, case):
     return 1 if ctx.failures or ctx.divergences else 0
 
 
+# so that `harness/check.py C14OM` runs this half on its own
+run = run_om
+replay = replay_om
+
+
 if __name__ == '__main__':
     import time
     tier = sys.argv[1] if len(sys.argv) > 1 else 'quick'
